@@ -3,7 +3,7 @@ import json
 import os
 
 import fields as F
-from core import Result
+from core import Result, guard
 
 RULE = ("random field declarations over every built-in persistent field class with boundary-heavy options (bounds, lengths, regex, "
         "choices, case/strip transforms, required, prefix lengths, allow_ipv4, exists/startdir, encodings, algorithms, item/key/value "
@@ -284,6 +284,76 @@ CORPUS = [
 ]
 
 
+def config_item_stream(ctx, res, tmp, keypath):
+    """typed lists whose items are configurations (plain schema and config type) that themselves hold fields with a non-trivial on-disk
+    form — bytes in both encodings, digests, secrets, lists of bytes, one more level of configuration items: the list field's on-disk
+    form converted back by the same field gives equal items (and an equal accepted list), also for whole numbers beyond 2**53"""
+    import copy
+    import cincoconfig as cc
+
+    def item_schema(depth):
+        it = cc.Schema()
+        it.name = cc.StringField(default="n")
+        it.raw = cc.BytesField()
+        it.hexed = cc.BytesField(encoding="hex")
+        it.blobs = cc.ListField(cc.BytesField(), default=lambda: [])
+        it.pw = cc.ChallengeField("sha256")
+        it.secret = cc.SecureField(method="xor")
+        it.big = cc.IntField()
+        if depth:
+            it.inner.raw = cc.BytesField()
+            it.kids = cc.ListField(item_schema(depth - 1), default=lambda: [])
+        return it
+
+    def show(c):
+        out = {}
+        for k, v in c._data.items():
+            if isinstance(v, cc.Config):
+                out[k] = show(v)
+            elif isinstance(v, list) and v and isinstance(v[0], cc.Config):
+                out[k] = [show(x) for x in v]
+            elif isinstance(v, list):
+                out[k] = list(v)
+            elif type(v).__name__ == "DigestValue":
+                out[k] = ["digest", v.salt, v.digest]
+            else:
+                out[k] = v
+        return out
+
+    for typed in (False, True):
+        for raw in (b"hello", b"~~~", b"\xfb\xff\x00", b""):
+            it = item_schema(1)
+            T = cc.make_type(it, "CodecItem%d%d" % (typed, len(raw))) if typed else it
+            s = cc.Schema()
+            s.items = cc.ListField(T, default=lambda: [])
+            cfg = s(key_filename=keypath)
+            basic = None
+            try:
+                top = T()
+                top.raw, top.hexed, top.blobs = raw, raw[::-1], [raw, b"x"]
+                top.pw = "pa55"
+                top.secret = "s3cret-" + raw.hex()
+                top.big = 2 ** 53 + 1
+                top.inner.raw = raw
+                kid = it._fields["kids"].field()
+                kid.raw, kid.hexed, kid.blobs, kid.pw, kid.secret, kid.big = raw, raw, [raw], "kid", "kid-secret", -(2 ** 60) - 1
+                top.kids = [kid]
+                cfg.items = [top]
+                fld = s._fields["items"]
+                held = [show(x) for x in cfg.items]
+                basic = fld.to_basic(cfg, cfg.items)
+                back = fld.to_python(cfg, copy.deepcopy(basic))
+                again = fld.validate(cfg, back)
+                got = [show(x) for x in again]
+            except Exception as e:  # noqa
+                held, got = "held", "raised %s: %s" % (type(e).__name__, str(e)[:120])
+            case = {"stream": "config-items", "config_type": typed, "raw": F.enc_val(raw)}
+            res.case(json.dumps(case, sort_keys=True, default=str), kind="config-items")
+            if got != held:
+                res.violate("C05:codec-differs:config-items", "a list of configurations converted to its on-disk form and back does not give equal items",
+                            dict(case, held=F.enc_val(held), got=F.enc_val(got), basic=repr(basic)[:300]))
+
+
 def run(ctx, n_quick=3000, n_thorough=100000):
     res = Result()
     tmp, keypath, key = setup_tmp(ctx)
@@ -295,6 +365,7 @@ def run(ctx, n_quick=3000, n_thorough=100000):
         for _ in range(6):
             cases.append((f, F.gen_value(rng, f, tmp)))
     run_cases(ctx, res, cases, tmp, keypath, key)
+    guard(res, "C05", config_item_stream, ctx, res, tmp, keypath)
     return res
 
 
